@@ -85,6 +85,43 @@ Definition field_type_on (S : schema) (rt fname : string) : option gtype :=
        | None => None
        end.
 
+(* the object case of CompleteValue, given the checker [rec] for field values:
+   kv has exactly the collected response keys (conditional ones may be absent), each value conforms *)
+Definition sub_scopes (ns : list cnode) : list scope :=
+  (* a node's sub-selection is certainly active when the node is unconditional or is the only node of
+     its response key *)
+  let single := match ns with [_] => true | _ => false end in
+  flat_map (fun n => match n_sub n with
+                     | Some sl => [(n_cond n && negb single, sl)]
+                     | None => [] end) ns.
+
+Definition conf_key (rec : gtype -> list scope -> json -> bool) (S : schema) (rt : string)
+           (nodes : list cnode) (kv : list (string * json)) (k : string) : bool :=
+  let ns := filter (fun n => String.eqb (n_key n) k) nodes in
+  match jlookup k kv with
+  | None => forallb n_cond ns
+  | Some v =>
+      match ns with
+      | [] => false
+      | n0 :: _ =>
+          if String.eqb (n_name n0) "__typename"
+          then match v with JStr s => String.eqb s rt | _ => false end
+          else match field_type_on S rt (n_name n0) with
+               | None => false
+               | Some ft => rec ft (sub_scopes ns) v
+               end
+      end
+  end.
+
+Definition conf_obj_with (rec : gtype -> list scope -> json -> bool) (S : schema) (rt : string)
+           (nodes : option (list cnode)) (kv : list (string * json)) : bool :=
+  match nodes with
+  | None => false
+  | Some nodes =>
+      let keys := keys_in_order nodes [] in
+      forallb (fun k => mem (fst k) keys) kv && forallb (conf_key rec S rt nodes kv) keys
+  end.
+
 (* CompleteValue *)
 Fixpoint conf_val (fuel : nat) (S : schema) (frs : list fragdef) (t : gtype) (scs : list scope) (j : json)
   : bool :=
@@ -92,36 +129,7 @@ Fixpoint conf_val (fuel : nat) (S : schema) (frs : list fragdef) (t : gtype) (sc
   | O => false
   | S fuel' =>
       let conf_obj (rt : string) (kv : list (string * json)) : bool :=
-        match collect_scopes fuel' S frs rt scs with
-        | None => false
-        | Some nodes =>
-            let keys := keys_in_order nodes [] in
-            forallb (fun k => mem (fst k) keys) kv
-            && forallb (fun k =>
-                 let ns := filter (fun n => String.eqb (n_key n) k) nodes in
-                 match jlookup k kv with
-                 | None => forallb n_cond ns
-                 | Some v =>
-                     match ns with
-                     | [] => false
-                     | n0 :: _ =>
-                         if String.eqb (n_name n0) "__typename"
-                         then match v with JStr s => String.eqb s rt | _ => false end
-                         else
-                           match field_type_on S rt (n_name n0) with
-                           | None => false
-                           | Some ft =>
-                               conf_val fuel' S frs ft
-                                 (* a node's sub-selection is certainly active when the node is
-                                    unconditional or is the only node of its response key *)
-                                 (let single := match ns with [_] => true | _ => false end in
-                                  flat_map (fun n => match n_sub n with
-                                                     | Some sl => [(n_cond n && negb single, sl)]
-                                                     | None => [] end) ns) v
-                           end
-                     end
-                 end) keys
-        end in
+        conf_obj_with (conf_val fuel' S frs) S rt (collect_scopes fuel' S frs rt scs) kv in
       match t with
       | TNonNull t' => match j with JNull => false | _ => conf_val fuel' S frs t' scs j end
       | TList t' => match j with
